@@ -7,7 +7,8 @@ EXTENDS Integers, Sequences
 NoOKNames == {"a", "i", "mr", "pi", "qm", "qg", "v"}
 KindOfQuery(lname) == IF lname \in NoOKNames THEN "qnook" ELSE "qok"
 
-Faults == {"none", "wraise", "r1raise", "r2raise", "rNraise", "errline", "silent"}
+\* rkraise: the k-th read of the request raises (any position; V only) - the board itself answers as documented
+Faults == {"none", "wraise", "r1raise", "r2raise", "rNraise", "rkraise", "errline", "silent"}
 Empty == <<"empty">>
 
 \* what the board enqueues when request number n is written. An item is a line token
